@@ -89,6 +89,11 @@ impl Dag {
         self.adj_list[node] = nodes;
     }
 
+    #[cfg(pnordahl_monorail_verif)]
+    pub fn verif_adj_list(&self) -> &Vec<Vec<usize>> {
+        &self.adj_list
+    }
+
     pub fn set_label(&mut self, label: &str, node: usize) -> Result<(), GraphError> {
         if self.label2node.contains_key(label) {
             return Err(GraphError::DuplicateLabel(label.to_owned()));
